@@ -29,6 +29,8 @@ pub enum Act {
     PtrEq(usize, usize),
     Counts(usize),
     WCounts(usize),
+    /// `Weak::from_raw(Weak::into_raw(w))` on a Weak of the program (identity; no model action)
+    WeakRaw(usize),
     SetPanic(usize),
     SetShallow(usize),
     UpgradeField(usize),
@@ -78,6 +80,7 @@ pub fn parse_act(ws: &[&str]) -> Option<Act> {
         ["ptrEq", a, b] => PtrEq(n(a)?, n(b)?),
         ["counts", a] => Counts(n(a)?),
         ["wcounts", a] => WCounts(n(a)?),
+        ["weakRaw", a] => WeakRaw(n(a)?),
         ["setPanic", a] => SetPanic(n(a)?),
         ["setShallow", a] => SetShallow(n(a)?),
         ["upgradeField", a] => UpgradeField(n(a)?),
@@ -117,6 +120,7 @@ impl Act {
             PtrEq(a, b) => format!("ptrEq {} {}", a, b),
             Counts(a) => format!("counts {}", a),
             WCounts(a) => format!("wcounts {}", a),
+            WeakRaw(a) => format!("weakRaw {}", a),
             SetPanic(a) => format!("setPanic {}", a),
             SetShallow(a) => format!("setShallow {}", a),
             UpgradeField(a) => format!("upgradeField {}", a),
